@@ -157,7 +157,7 @@ func vf01Pool(f []string) string {
 func vf01PDFree(a *PrefixAllocator) int {
 	var got []*net.IPNet
 	for {
-		p, err := a.Allocate("\x00probe")
+		p, err := a.Allocate(vf01ProbeSid)
 		if err != nil {
 			break
 		}
@@ -296,25 +296,44 @@ func vf01BuildProfiles(f []string) (map[string]*ip.IPv4Profile, map[string]*ip.I
 }
 
 // which allocator did a containment walk stop at?  (Go map order: the implementation's choice)
-type vf01Snap struct {
-	held bool
-	sid  string
-	n    int
+// Who holds a value in one allocator, observed through the allocator's exported methods only:
+// 0 = nobody, 1 = session sid, 2 = another session.  Reserve by a probe session succeeds iff nobody holds
+// the value (and is undone by Release: the set of free values and every other lease are as before, only the
+// order inside the free list may differ, which the model does not constrain); if somebody holds it,
+// Reserve(sid) succeeds iff that somebody is sid (re-reserving one's own value changes nothing).
+const vf01ProbeSid = "\x00probe"
+
+func vf01HolderIP(a *PoolAllocator, ipb net.IP, sid string) int {
+	if a.Reserve(ipb, vf01ProbeSid) == nil {
+		a.Release(ipb)
+		return 0
+	}
+	if a.Reserve(ipb, sid) == nil {
+		return 1
+	}
+	return 2
 }
 
-func vf01Snapshot(r *Registry, fam byte, arg string) map[string]vf01Snap {
-	out := map[string]vf01Snap{}
+func vf01HolderPfx(a *PrefixAllocator, p *net.IPNet, sid string) int {
+	if a.Reserve(p, vf01ProbeSid) == nil {
+		a.Release(p)
+		return 0
+	}
+	if a.Reserve(p, sid) == nil {
+		return 1
+	}
+	return 2
+}
+
+// holder state of the value in every allocator of the family that Contains it
+func vf01Snapshot(r *Registry, fam byte, arg, sid string) map[string]int {
+	out := map[string]int{}
 	if fam == 'd' {
 		pfx := vf01Pfx(arg)
 		for k, a := range r.pdAllocators {
-			idx, ok := a.prefixToIndex(pfx)
-			if !ok {
-				continue
+			if a.Contains(pfx) {
+				out[k] = vf01HolderPfx(a, pfx, sid)
 			}
-			a.mu.Lock()
-			s, held := a.leases[idx]
-			out[k] = vf01Snap{held, s, len(a.leases)}
-			a.mu.Unlock()
 		}
 		return out
 	}
@@ -323,25 +342,17 @@ func vf01Snapshot(r *Registry, fam byte, arg string) map[string]vf01Snap {
 		allocs = r.ianaAllocators
 	}
 	ipb := vf01IP(arg)
-	addr, ok := netip.AddrFromSlice(ipb)
-	if !ok {
-		return out
-	}
-	addr = addr.Unmap()
 	for k, a := range allocs {
-		if !a.Contains(ipb) {
-			continue
+		if a.Contains(ipb) {
+			out[k] = vf01HolderIP(a, ipb, sid)
 		}
-		a.mu.Lock()
-		s, held := a.leases[addr]
-		out[k] = vf01Snap{held, s, len(a.leases)}
-		a.mu.Unlock()
 	}
 	return out
 }
 
-// release=false: Reserve walk; release=true: Release walk
-func vf01Which(before, after map[string]vf01Snap, sid string, err error, release bool) string {
+// which allocator did a containment walk (Go map order: the implementation's choice) stop at?
+// release=false: Reserve walk by sid; release=true: Release walk
+func vf01Which(before, after map[string]int, err error, release bool) string {
 	keys := make([]string, 0, len(before))
 	for k := range before {
 		keys = append(keys, k)
@@ -354,16 +365,12 @@ func vf01Which(before, after map[string]vf01Snap, sid string, err error, release
 	}
 	for _, k := range keys {
 		b := before[k]
-		if release {
-			if !b.held {
-				return k
-			}
-			continue
-		}
-		if err == nil && b.held && b.sid == sid {
+		switch {
+		case release && b == 0: // releasing what nobody holds changes nothing
 			return k
-		}
-		if err != nil && b.held && b.sid != sid {
+		case !release && err == nil && b == 1: // already ours
+			return k
+		case !release && err != nil && b == 2: // conflict
 			return k
 		}
 	}
@@ -451,7 +458,7 @@ func vf01Reg(f []string) string {
 			var err error
 			arg := q[len(q)-1]
 			sid := "s" + q[0]
-			before := vf01Snapshot(r, fam, arg)
+			before := vf01Snapshot(r, fam, arg, sid)
 			direct := false
 			if op[0] == 'P' {
 				k := vf01Key(q[1])
@@ -477,12 +484,12 @@ func vf01Reg(f []string) string {
 			if direct {
 				res = append(res, vf01Err(err))
 			} else {
-				after := vf01Snapshot(r, fam, arg)
-				res = append(res, vf01Err(err)+"@"+vf01Unkey(vf01Which(before, after, sid, err, false)))
+				after := vf01Snapshot(r, fam, arg, sid)
+				res = append(res, vf01Err(err)+"@"+vf01Unkey(vf01Which(before, after, err, false)))
 			}
 		case 'Q', 'I': // Q<f><key>,<arg> (Release*InPool)   I<f><arg> (ReleaseIP / ReleaseIANAByIP / ReleasePDByPrefix)
 			arg := q[len(q)-1]
-			before := vf01Snapshot(r, fam, arg)
+			before := vf01Snapshot(r, fam, arg, "")
 			walk := false
 			if op[0] == 'Q' {
 				k := vf01Key(q[0])
@@ -507,8 +514,8 @@ func vf01Reg(f []string) string {
 				}
 			}
 			if walk {
-				after := vf01Snapshot(r, fam, arg)
-				res = append(res, "ok@"+vf01Unkey(vf01Which(before, after, "", nil, true)))
+				after := vf01Snapshot(r, fam, arg, "")
+				res = append(res, "ok@"+vf01Unkey(vf01Which(before, after, nil, true)))
 			} else {
 				res = append(res, "ok")
 			}
